@@ -3,7 +3,10 @@ package main
 // C01: write then read returns exactly the rows written.  Rows are generated
 // as value trees of random schemas, shredded by an independent implementation
 // of the Dremel algorithm, written through the Row API with random options and
-// Write/Flush histories, and read back through several readers.  Typed
+// Write/Flush histories into each RowWriter of the library (rowpaths.go:
+// writers, buffers, the row buffer, the sorting writer) by a caller that keeps
+// its rows or reuses their memory once WriteRows has returned, and read back
+// through several readers.  Typed
 // round trips (typed.go: struct families filled by reflection, several typed
 // write and read paths) cover the Go-value mapping, the logical types reached
 // through struct tags and the bulk (one call, many values) column paths.  The model side: Dremel shred == the rows handed to
@@ -48,7 +51,7 @@ func readAll(rows parquet.Rows, batch int) ([]parquet.Row, error) {
 	}
 }
 
-func compareRows(c *core.Ctx, class string, cs gen.Case, want, got []parquet.Row, how string) bool {
+func compareRows(c *core.Ctx, class string, cs rowCase, want, got []parquet.Row, how string) bool {
 	if len(want) != len(got) {
 		c.Violation(class+"-row-count", fmt.Sprintf("%s: wrote %d rows, read %d", how, len(want), len(got)), cs)
 		return false
@@ -63,10 +66,10 @@ func compareRows(c *core.Ctx, class string, cs gen.Case, want, got []parquet.Row
 	return true
 }
 
-func check(c *core.Ctx, cs gen.Case) (ok bool, nontrivial bool, bucket string) {
+func check(c *core.Ctx, cs rowCase) (ok bool, nontrivial bool, bucket string) {
 	ok = true
 	b := cs.Build()
-	bucket = fmt.Sprintf("v%d/%s", b.Opts.PageVersion, b.Opts.Codec)
+	bucket = fmt.Sprintf("v%d/%s/%s/%s", b.Opts.PageVersion, b.Opts.Codec, cs.sink(), cs.reuse())
 	var buf bytes.Buffer
 	var werr error
 	p := func() (p string) {
@@ -75,7 +78,7 @@ func check(c *core.Ctx, cs gen.Case) (ok bool, nontrivial bool, bucket string) {
 				p = fmt.Sprint(r)
 			}
 		}()
-		werr = b.Write(&buf)
+		werr = cs.write(b, &buf)
 		return ""
 	}()
 	if p != "" {
@@ -114,7 +117,18 @@ func check(c *core.Ctx, cs gen.Case) (ok bool, nontrivial bool, bucket string) {
 			}
 			got = append(got, rs...)
 		}
-		if !compareRows(c, "rows-differ", cs, b.Rows, got, "RowGroup.Rows") {
+		how := cs.sink() + " (caller: " + cs.reuse() + ") -> "
+		want := b.Rows
+		if cs.sink() == "sorting" {
+			// the order is the writer's (C10): the rows read must be a permutation of
+			// the rows written, and every other reader must return them in the order
+			// of this one
+			if !comparePermutation(c, "rows-differ", cs, b.Rows, got, how+"RowGroup.Rows") {
+				ok = false
+				return
+			}
+			want = got
+		} else if !compareRows(c, "rows-differ", cs, b.Rows, got, how+"RowGroup.Rows") {
 			ok = false
 			return
 		}
@@ -126,18 +140,18 @@ func check(c *core.Ctx, cs gen.Case) (ok bool, nontrivial bool, bucket string) {
 			ok = false
 			return
 		}
-		if !compareRows(c, "rows-differ-reader", cs, b.Rows, got2, "parquet.Reader") {
+		if !compareRows(c, "rows-differ-reader", cs, want, got2, how+"parquet.Reader") {
 			ok = false
 			return
 		}
 		// (3) column by column through pages/values
 		for ci, leaf := range b.Root.Leaves() {
 			_ = leaf
-			var want []string
-			for _, r := range b.Rows {
+			var wantv []string
+			for _, r := range want {
 				for _, v := range r {
 					if v.Column() == ci {
-						want = append(want, gen.Canon(v))
+						wantv = append(wantv, gen.Canon(v))
 					}
 				}
 			}
@@ -162,8 +176,8 @@ func check(c *core.Ctx, cs gen.Case) (ok bool, nontrivial bool, bucket string) {
 				}
 				pages.Close()
 			}
-			if strings.Join(want, " ") != strings.Join(gotv, " ") {
-				c.Violation("column-values-differ", fmt.Sprintf("column %d read through pages differs from what was written (schema %s)", ci, b.Root.Text()), cs)
+			if strings.Join(wantv, " ") != strings.Join(gotv, " ") {
+				c.Violation("column-values-differ", fmt.Sprintf(how+"column %d read through pages differs from what was written (schema %s)", ci, b.Root.Text()), cs)
 				ok = false
 				return
 			}
@@ -284,24 +298,36 @@ type tInner struct {
 }
 
 func run(c *core.Ctx) {
-	c.Res.Rule = "random schemas (required/optional/repeated leaves of every physical type and several logical types, groups, LIST groups, depth <= 3) x value trees with boundary values (min/max ints, NaN payloads, -0, infinities, empty and long byte strings, null runs, empty and long lists) shredded by an independent Dremel implementation x writer options (page version, page buffer size, max rows per row group, codec per file and per column, encodings per column, dictionary limit, statistics, write buffer, bloom filters, index size limit) x Write/Flush histories; each file is read back through RowGroup.Rows, parquet.Reader and ColumnChunk.Pages and must equal the written rows value-for-value and level-for-level; plus typed round trips generated by reflection over compiled struct families (every kind of dictionary-encoded column as required, optional and repeated field with lists of up to 5000 (thorough: 20000) elements handed over in one call; logical types through struct tags: int(n)/uint(n), decimal on int32/int64/fixed arrays, date, time, timestamp of every unit on integers, time.Time and time.Duration, uuid, enum, json, string/bytes, at the extremes of their ranges) x value pools of 2..2^30 distinct values per column x write path (one GenericWriter.Write call, small calls, GenericBuffer+WriteRowGroup, Write(any)) x read path (parquet.Read, GenericReader batches, Reader.Read(any)) x read type (the written struct type, or one with the same tags and wider Go integer types) x page version, page size, codec, dictionary limit, rows per row group; compared leaf by leaf (floats by bits, time.Time as instants, nil = empty slice). Non-trivial = at least 2 rows accepted by the writer; distinct by the JSON of the case."
+	c.Res.Rule = "random schemas (required/optional/repeated leaves of every physical type and several logical types, groups, LIST groups, depth <= 3) x value trees with boundary values (min/max ints, NaN payloads, -0, infinities, empty and long byte strings, null runs, empty and long lists) shredded by an independent Dremel implementation x writer options (page version, page buffer size, max rows per row group, codec per file and per column, encodings per column, dictionary limit, statistics, write buffer, bloom filters, index size limit) x Write/Flush histories x row sink (GenericWriter.WriteRows, Writer.WriteRows, GenericBuffer.WriteRows or RowBuffer.WriteRows + WriteRowGroup at every Flush, SortingWriter.WriteRows with or without a sorting column and sort buffers of 1..1000 rows) x caller (keeps fresh rows; builds every batch in one Value slab and one byte arena which it overwrites after each WriteRows; refills the same slab and arena with the next batch); each file is read back through RowGroup.Rows, parquet.Reader and ColumnChunk.Pages and must equal the written rows value-for-value and level-for-level (in the order written; as a multiset for the sorting writer, whose order is C10); plus typed round trips generated by reflection over compiled struct families (every kind of dictionary-encoded column as required, optional and repeated field with lists of up to 5000 (thorough: 20000) elements handed over in one call; logical types through struct tags: int(n)/uint(n), decimal on int32/int64/fixed arrays, date, time, timestamp of every unit on integers, time.Time and time.Duration, uuid, enum, json, string/bytes, at the extremes of their ranges) x value pools of 2..2^30 distinct values per column x write path (one GenericWriter.Write call, small calls, GenericBuffer+WriteRowGroup, Write(any), RowBuffer+WriteRowGroup, SortingWriter with or without a sorting column) x caller (hands over its rows and keeps them; fills one reused batch slice whose arrays, byte-slice contents, numbers, pointer targets and list elements it overwrites in place after each Write; refills the same batch with the next rows) x read path (parquet.Read, GenericReader batches, Reader.Read(any)) x read type (the written struct type, or one with the same tags and wider Go integer types) x page version, page size, codec, dictionary limit, rows per row group; compared leaf by leaf (floats by bits, time.Time as instants, nil = empty slice). Non-trivial = at least 2 rows accepted by the writer; distinct by the JSON of the case."
 	n := c.N(350, 6000)
 	for i := 0; i < n; i++ {
-		cs := gen.Case{Seed: c.Seed*1000003 + int64(i), NRows: []int{0, 1, 5, 40, 130, 300, 700}[c.Rng.Intn(7)], MaxDepth: 1 + c.Rng.Intn(3), MaxFields: 1 + c.Rng.Intn(5), Codecs: allCodecs, NullBias: c.Rng.Intn(8)}
+		cs := rowCase{Case: gen.Case{Seed: c.Seed*1000003 + int64(i), NRows: []int{0, 1, 5, 40, 130, 300, 700}[c.Rng.Intn(7)], MaxDepth: 1 + c.Rng.Intn(3), MaxFields: 1 + c.Rng.Intn(5), Codecs: allCodecs, NullBias: c.Rng.Intn(8)}}
+		cs.Sink, cs.Reuse = rowDims(i)
 		if !c.Quick() && i%50 == 0 {
 			cs.NRows = 5000
 		}
 		runCase(c, cs, i < 3)
 	}
 	// typed round trips
-	for i := 0; i < c.N(96, 1200); i++ {
+	for i := 0; i < c.N(108, 1296); i++ {
 		runTypedCase(c, genTypedCase(c, i), i < 3)
 	}
 }
 
-func runCase(c *core.Ctx, cs gen.Case, sample bool) {
+func runCase(c *core.Ctx, cs rowCase, sample bool) {
 	failed := c.Probe(func() { check(c, cs) })
 	if failed {
+		// shrink: the plain caller, the plain writer
+		for _, simpler := range []func(t *rowCase) bool{
+			func(t *rowCase) bool { ch := t.reuse() != "keep"; t.Reuse = "keep"; return ch },
+			func(t *rowCase) bool { ch := t.sink() != "writer"; t.Sink = "writer"; return ch },
+			func(t *rowCase) bool { ch := t.reuse() == "refill"; t.Reuse = "scribble"; return ch },
+		} {
+			t := cs
+			if simpler(&t) && c.Probe(func() { check(c, t) }) {
+				cs = t
+			}
+		}
 		// shrink: fewer rows
 		for cs.NRows > 1 {
 			t := cs
@@ -336,7 +362,7 @@ func replay(c *core.Ctx, raw json.RawMessage) {
 		runTypedCase(c, tc, true)
 		return
 	}
-	var cs gen.Case
+	var cs rowCase
 	if err := json.Unmarshal(raw, &cs); err != nil {
 		c.Note("replay does not hold a generator case")
 		return
